@@ -31,7 +31,7 @@ def check(pid, tier='quick', seed=0):
     t0 = time.time()
     prop = PROPS[pid]
     units = list(prop['units'].keys())
-    results = runner.run_units(units, rlimit=prop.get('rlimit'))
+    results = runner.run_units(units, rlimit=prop.get('rlimit', 40))
     known = load_known()
     known_for = [k for k in known.get('findings', []) if k['property'] == pid]
     undecided = []
@@ -62,14 +62,23 @@ def check(pid, tier='quick', seed=0):
         in_scope = [f for f in r.info['functions'] if fn_in_scope(globs, f['fn'])]
         if not in_scope:
             undecided.append('%s: no function of this unit is in scope of %s (vacuous check)' % (u, pid))
+        kinds = prop.get('only_kinds')
+        lab_re = re.compile(prop['only_labels']) if prop.get('only_labels') else None
+        def relevant(x):
+            if kinds is None and lab_re is None:
+                return True
+            if x.get('label') and lab_re is not None and lab_re.search(x['label']):
+                return True
+            return kinds is not None and x['kind'] in kinds and not (x['kind'] == 'postcondition')
         for f in in_scope:
-            fails = [x for x in r.failed if x['fn'] == f['fn']]
+            fails = [x for x in r.failed if x['fn'] == f['fn'] and relevant(x)]
             # obligations of a function: its labelled contract clauses + its body safety/termination query
-            n = f['clauses'] + 1
+            nclauses = f['clauses'] if lab_re is None and kinds is None else len([l for l in f.get('labels', []) if lab_re is not None and lab_re.search(l)])
+            n = nclauses + 1
             obligations += n
             nfail = len(set(x['obligation'] for x in fails))
             discharged += max(0, n - nfail)
-            clause_count += f['clauses']
+            clause_count += nclauses
             rewrites += len(f['rewrites'])
             fn_records.append({'fn': f['fn'], 'unit': u, 'source': f['source'], 'body_sha256': f['body_sha256'],
                                'clauses': f['clauses'], 'loops': f['loops'], 'rewrites': f['rewrites'],
